@@ -86,6 +86,7 @@ type ConcRun struct {
 	Reopened Model // contents after Close and a fresh Open
 	ReopenMsg string
 	BackupDirs []string
+	QuietBad   bool   // a Next call treated as a pure pop by the QuietPop reduction made a file-system call
 	ReplayMsg  string // non-empty if the independent replay of the segment files at quiescence differs from the contents
 }
 
@@ -155,17 +156,25 @@ func (r *ConcRun) Signature() string {
 type concState struct {
 	iter     *pogreb.ItemIterator
 	quietPop bool
+	fsCalls  func() int // number of file-system calls made so far
+	quietBad *bool      // set when a Next call assumed to be a pure pop touched the file system
 }
 
 // iterNext calls Next; with the QuietPop reduction a call that only pops an item fetched earlier runs
 // without scheduling points (its transitions touch iterator-local state only and commute with every
 // other thread; what it returns was fixed when the bucket was fetched).
-func iterNext(it *pogreb.ItemIterator, quietPop bool) (k, v []byte, err error) {
-	if quietPop {
+func iterNext(it *pogreb.ItemIterator, st *concState) (k, v []byte, err error) {
+	if st.quietPop {
 		q := 0
 		vsync.Quiet(func() { q = it.VerifQueued() })
 		if q > 0 {
+			before := st.fsCalls()
 			vsync.Quiet(func() { k, v, err = it.Next() })
+			if st.fsCalls() != before {
+				// the independence assumption behind the reduction does not hold for this build: the
+				// exploration is repeated without the reduction (ExploreScenario)
+				*st.quietBad = true
+			}
 			return
 		}
 	}
@@ -173,8 +182,6 @@ func iterNext(it *pogreb.ItemIterator, quietPop bool) (k, v []byte, err error) {
 }
 
 func execOp(s *Sess, st *concState, thread, idx int, o Op, r *ConcRun) {
-
-	quietPop := st.quietPop
 	e := Event{Thread: thread, Idx: idx, Op: o, LogAt: len(s.FS.Log)}
 	e.Call = vsync.LogicalTime()
 	db := s.DB
@@ -221,7 +228,7 @@ func execOp(s *Sess, st *concState, thread, idx int, o Op, r *ConcRun) {
 	case Scan:
 		it := db.Items()
 		for n := 0; n < 100000; n++ {
-			k, v, err := iterNext(it, quietPop)
+			k, v, err := iterNext(it, st)
 			if err == pogreb.ErrIterationDone {
 				break
 			}
@@ -239,7 +246,7 @@ func execOp(s *Sess, st *concState, thread, idx int, o Op, r *ConcRun) {
 		// the quiescent oracles); with concurrent writers a later index split may legitimately add a
 		// bucket behind the scan position, so a pair is recorded (and must be truthful), only an error is not accepted.
 		for i := 0; i < 2 && e.Err == ""; i++ {
-			k, v, err := iterNext(it, quietPop)
+			k, v, err := iterNext(it, st)
 			if err == nil {
 				e.Pairs = append(e.Pairs, [2]string{string(k), string(v)})
 				e.PairT = append(e.PairT, vsync.LogicalTime())
@@ -252,7 +259,7 @@ func execOp(s *Sess, st *concState, thread, idx int, o Op, r *ConcRun) {
 		if st.iter == nil {
 			st.iter = db.Items()
 		}
-		k, v, err := iterNext(st.iter, quietPop)
+		k, v, err := iterNext(st.iter, st)
 		if err != nil && err != pogreb.ErrIterationDone {
 			seterr(err)
 		}
@@ -325,7 +332,7 @@ func RunScenario(sc *Scenario, base *Base, prefix []int, keepTrace bool, sleep .
 			}
 		}
 	}
-	st := &concState{quietPop: sc.QuietPop}
+	st := &concState{quietPop: sc.QuietPop, fsCalls: func() int { return s.FS.Stats.Calls }, quietBad: &r.QuietBad}
 	main := func() {
 		opts := s.Cfg.Options(s.FS)
 		if sc.Worker {
@@ -463,8 +470,12 @@ func ExploreScenario(c *Ctx, sc *Scenario, base *Base, slice time.Time, check fu
 		}
 		return check(r)
 	}
+	quietBad := false
 	run := func(prefix []int, sleep []int) *vsync.Exec {
 		r := RunScenario(sc, base, prefix, false, sleep)
+		if r.QuietBad {
+			quietBad = true
+		}
 		if r.X.SleepBlocked {
 			c.Add("sleep_blocked", 1)
 			return r.X
@@ -511,8 +522,17 @@ func ExploreScenario(c *Ctx, sc *Scenario, base *Base, slice time.Time, check fu
 		passes = []pass{{0, 0}, {1, 0}, {fullB, 5000}, {2, 0}, {3, 0}, {4, 0}, {6, 0}, {8, 0}, {12, 0}, {fullB, 0}}
 	}
 	for _, p := range passes {
-		ex := &vsync.Explorer{Bound: p.bound, Deadline: deadline, MaxExecs: p.cap, Run: run, Check: func(x *vsync.Exec) bool { return viol == nil }}
+		ex := &vsync.Explorer{Bound: p.bound, Deadline: deadline, MaxExecs: p.cap, Run: run, Check: func(x *vsync.Exec) bool { return viol == nil && !quietBad }}
 		ex.Explore()
+		if quietBad && sc.QuietPop {
+			// the build under test reads shared state in a Next call that only pops: explore without the reduction
+			c.Add("quietpop_reduction_dropped", 1)
+			sc2 := *sc
+			sc2.QuietPop = false
+			v2, st2 := ExploreScenario(c, &sc2, base, slice, check)
+			st2.Execs += st.Execs + ex.Execs
+			return v2, st2
+		}
 		st.Execs += ex.Execs
 		st.Points += ex.Points
 		if ex.MaxDepth > st.MaxDepth {
